@@ -100,13 +100,31 @@ func GenPeerScenario(rng *rand.Rand, id int) *PeerScenario {
 	if sc.EarlyFQ && nLib > 5 {
 		nLib = 5
 	}
+	// CMS-style quit: the library has nothing (more) to say when the peer's last block is done - nothing queued, or it is
+	// slave and its one block is accepted or rejected in its first turn
+	cmsLibAll := false
+	if rng.Intn(6) == 0 {
+		sc.CmsQuit = true
+		if rng.Intn(3) == 0 {
+			sc.CmsLingerMs = 60 // the library's FF crosses the FQ on the wire
+		}
+		if sc.Master && rng.Intn(2) == 0 {
+			nLib, cmsLibAll = 1+rng.Intn(5), true
+		} else {
+			nLib = 0
+		}
+		sc.FFFirst = false
+	}
 	// the peer may say FF in its first turn although it has messages (they "arrive later"); only meaningful when the
 	// session goes on, i.e. the peer is slave and the library has something to send
-	sc.FFFirst = !sc.Master && nLib > 0 && rng.Intn(3) == 0
+	sc.FFFirst = !sc.CmsQuit && !sc.Master && nLib > 0 && rng.Intn(3) == 0
 	for i := 0; i < nLib; i++ {
 		ms := MsgSpec{MID: randMID(rng, used), Prec: []int{3, 3, 2, 1, 0}[rng.Intn(5)], Size: pick(rng, map[string]int{"tiny": 3, "small": 4, "medium": 2}),
 			NonASCII: rng.Intn(4) == 0, Att: rng.Intn(3) / 2}
 		cls := pick(rng, map[string]int{"+": 6, "-": 2, "=": 2})
+		if cmsLibAll && cls == "=" {
+			cls = "+"
+		}
 		ms.Policy = cls
 		toks := answerTokens[cls]
 		sc.Answers[ms.MID] = toks[rng.Intn(len(toks))]
@@ -203,6 +221,14 @@ func RunPeerScenario(ps *PeerScenario) ([]rec.Event, Result) {
 	if ps.Script.HangUpAfterFQ {
 		gate = make(chan struct{})
 		lib.OutboundGate = gate
+	}
+	if ps.Script.CmsQuit && ps.Script.CmsLingerMs == 0 && ps.Seed%3 != 0 {
+		// the library's mailbox answers only when the peer has gone: its FF meets a closed link (otherwise the two race)
+		gate = make(chan struct{})
+		lib.OutboundGate = gate
+		if !ps.Script.Master {
+			lib.GateFrom = 1 // the peer has the first turn: the library's first look into its mailbox comes after the peer's block
+		}
 	}
 	type ret struct {
 		s     string
